@@ -208,16 +208,6 @@ Qed.
 
 (** * The sources of an LSM state *)
 
-Lemma tier_inv_flat tiers : tier_inv tiers -> Forall sorted (concat tiers) /\ within_ok (concat tiers).
-Proof.
-  induction tiers as [|t R IH]; intro H.
-  - split; [constructor | apply within_ok_nil].
-  - apply tier_inv_cons in H as ((Hs & _ & Hw) & Hg & HR). destruct (IH HR) as [IH1 IH2].
-    cbn [concat]. split; [apply Forall_app; now split|].
-    apply within_ok_app. split; [exact Hw|]. split; [exact IH2|].
-    apply recs_geq_src_before. exact Hg.
-Qed.
-
 Lemma main_concat_sorted ts :
   Forall (fun t => sorted (t_recs t)) ts -> main_disjoint ts -> sorted (concat (map t_recs ts)).
 Proof.
@@ -300,7 +290,7 @@ Proof. unfold db_stream, fstream. cbn [dcmp]. f_equal. rewrite <- (map_id (lsm_s
 
 Record iter_inv (s : state) : Prop := {
   ii_src : src_inv s;
-  ii_tier : tier_inv (tiers_of s) }.
+  ii_scan : scan_inv (scan_srcs s) }.
 
 Lemma fstream_sorted s : iter_inv s -> sorted (fstream s).
 Proof. intros [Hs _]. exact (proj1 (mtree_owns _ (lsm_sources_sorted s Hs))). Qed.
@@ -320,7 +310,7 @@ Proof.
   pose proof (owner_idem _ _ _ Ho) as Hx. destruct (owner_some _ _ _ Ho) as [_ He].
   apply ik_eqb_spec in He as [Hk Hv]. exists x. split; [now apply (fstream_in s x Hi)|].
   split; [exact Hk|]. split; [exact Hv|].
-  destruct (tier_inv_flat _ (ii_tier s Hi)) as [Hs Hw].
+  destruct (ii_scan s Hi) as (Hs & _ & Hw). unfold scan_srcs in Hs, Hw.
   apply (owner_recent (concat (tiers_of s)) x Hs Hw Hx y Hy); congruence.
 Qed.
 
@@ -328,7 +318,7 @@ Lemma fstream_recent s x y :
   iter_inv s -> In x (fstream s) -> In y (all_recs (tiers_of s)) ->
   r_key y = r_key x -> r_ver y = r_ver x -> r_seq y <= r_seq x.
 Proof.
-  intros Hi Hx Hy. destruct (tier_inv_flat _ (ii_tier s Hi)) as [Hs Hw].
+  intros Hi Hx Hy. destruct (ii_scan s Hi) as (Hs & _ & Hw). unfold scan_srcs in Hs, Hw.
   apply (owner_recent (concat (tiers_of s)) x Hs Hw); [now apply (fstream_in s x Hi) | exact Hy].
 Qed.
 
@@ -354,8 +344,9 @@ Qed.
 Theorem fstream_get s k v :
   iter_inv s -> seq_functional (all_recs (tiers_of s)) -> src_search k v (fstream s) = get s k v.
 Proof.
-  intros Hi Hf. rewrite (get_is_tget s k v (ii_src s Hi)).
-  eapply is_latest_unique; [exact Hf | now apply fstream_latest | apply tget_latest, (ii_tier s Hi)].
+  intros Hi Hf. rewrite (get_is_flat s k v (ii_src s Hi)).
+  eapply is_latest_unique; [exact Hf | now apply fstream_latest|].
+  change (all_recs (tiers_of s)) with (concat (scan_srcs s)). apply scan_latest, (ii_scan s Hi).
 Qed.
 
 Theorem stream_get s k v :
@@ -2099,15 +2090,12 @@ Lemma txn_get_spec now s ws readTs u :
   txn_get now s readTs [] (sbase u) = spec_get now ws [] readTs u.
 Proof.
   intros Hi Hc Hf Hne.
-  pose proof (get_latest s ws (sbase u) readTs (ii_src s Hi) (ii_tier s Hi) Hc Hf) as Hg.
-  unfold txn_get, spec_get, view, view_at. rewrite N.eqb_refl. cbn [find pending_of].
-  destruct (first_some (mem_get (sbase u) readTs (st_mem s) :: map (fun m => mem_get (sbase u) readTs (snd m)) (rev (st_imms s)))) as [r|] eqn:E.
-  - assert (Hgr : get s (sbase u) readTs = Some r) by (unfold get; now rewrite E).
-    rewrite <- Hg, Hgr, live_dead. now destruct (deadb now r).
-  - rewrite Hg. destruct (latest_at ws (sbase u) readTs) as [r|] eqn:El; [|reflexivity].
-    rewrite live_dead. destruct (Hne r eq_refl) as [H|H].
-    + rewrite H. cbn [negb andb]. now destruct (deadb now r).
-    + apply N.eqb_neq in H. rewrite H, andb_false_r. now destruct (deadb now r).
+  pose proof (get_latest s ws (sbase u) readTs (ii_src s Hi) (ii_scan s Hi) Hc Hf) as Hg.
+  unfold txn_get, spec_get, view, view_at. rewrite N.eqb_refl. cbn [find pending_of]. rewrite Hg.
+  destruct (latest_at ws (sbase u) readTs) as [r|] eqn:El; [|reflexivity].
+  rewrite live_dead. destruct (Hne r eq_refl) as [H|H].
+  - rewrite H. cbn [negb andb]. rewrite andb_false_r. cbn [andb]. now destruct (deadb now r).
+  - apply N.eqb_neq in H. rewrite H, andb_false_r. now destruct (deadb now r).
 Qed.
 
 
